@@ -8,16 +8,24 @@
   What is a theorem and what is not:
   * theorems: the `nexts` tables are the two cyclic orders of the eight codes and `pointFor` places
     each code on its side or corner; `aroundBound` closes its input, stays on the boundary and walks
-    the box edge in the requested direction; a ring wholly inside comes back unchanged, one wholly
-    outside yields nothing; every ring `smartWrap` returns is closed and inside the box; the entry
+    the box edge in the requested direction; a ring wholly inside comes back unchanged, one with no
+    point in the open box yields nothing (`ring_wholly_outside_nil`); every ring `smartWrap` returns is
+    closed and inside the box; the entry
     points never panic, for every geometry value (`geometry_total`; it rests on `line_spec`, the
     specification of the open-bound line clipper proved in C16Line, and on C08's `geometry_total` for
-    the kinds that are clipped plainly).
+    the kinds that are clipped plainly).  EXACT ARITHMETIC: `line_spec` and every
+    totality theorem below are statements over a linearly ordered FIELD.  (In float64 the inner loop of
+    clip.line used not to terminate when an intersection landed one ulp beyond the neighbouring box
+    line — a vertex on a corner of a general-position box; found by this property's corner-snapped
+    family under a per-case watchdog, repaired in /repo 2c23ded, and `Clip.line_total_any` now gives
+    termination of that loop for ANY arithmetic.  The other loops are bounded by list lengths and the
+    eight-entry corner table.)
   * NOT a theorem (`*_full` definitions below, carried by the executable property on the
     implementation's outputs): the returned polygons enclose exactly the clipped region, with the
     requested winding, holes attached to their container, open input completed on its interior side.
 -/
 import OrbProofs.C16Lemmas
+import OrbProofs.C16Outside
 import Mathlib.Algebra.Order.Field.Rat
 
 namespace Orb.SmartClip
@@ -118,6 +126,27 @@ theorem ring_outside_nil (box : Bound α) (hb : BoxOK box) (r : List (Pt α)) (o
     (h : (∀ v ∈ r, v.x ≤ box.lo.x) ∨ (∀ v ∈ r, box.hi.x ≤ v.x) ∨
          (∀ v ∈ r, v.y ≤ box.lo.y) ∨ (∀ v ∈ r, box.hi.y ≤ v.y)) : ring box r o = .ok [] :=
   ring_outside_nil' box hb r o h
+
+/-- "ONE WHOLLY OUTSIDE YIELDS NOTHING", at full strength (OrbProofs/C16Outside.lean): if no point of the
+    implicitly closed ring lies in the OPEN box — every edge `a b` of `r ++ [r[0]]` satisfies
+    `∀ t ∈ [0,1], a + t(b-a) ∉ open box`; edges along a side, corner touches, L-shapes round a corner,
+    diagonals through a corner are all allowed — then `clipRings` finds neither an open piece nor a
+    closed ring and `smartclip.Ring` returns nil.  (`ring_outside_nil` above is the special case of one
+    closed outer half-plane: `ringAvoids_of_halfplane`.)  With `ring_nil_const` (C16Region) the region
+    of such a ring is constant on the open box. -/
+theorem ring_wholly_outside_nil (box : Bound α) (hb : BoxOK box) (r : List (Pt α)) (o : Int)
+    (h : RingAvoidsOpenBox box r) : clipRings box [r] = .ok ([], []) ∧ ring box r o = .ok [] :=
+  ring_outside_nil_strong box hb r o h
+
+/-- the same for `smartclip.Polygon` (every ring avoids the open box) … -/
+theorem polygon_wholly_outside_nil (box : Bound α) (hb : BoxOK box) (p : List (List (Pt α))) (o : Int)
+    (h : ∀ r ∈ p, RingAvoidsOpenBox box r) : polygon box p o = .ok [] :=
+  polygon_outside_nil_strong box hb p o h
+
+/-- … and for `smartclip.MultiPolygon`, which looks at the OUTER rings only before it returns nil. -/
+theorem multiPolygon_wholly_outside_nil (box : Bound α) (hb : BoxOK box) (mp : List (List (List (Pt α))))
+    (o : Int) (h : ∀ r ∈ outerRings mp, RingAvoidsOpenBox box r) : multiPolygon box mp o = .ok [] :=
+  multiPolygon_outside_nil_strong box hb mp o h
 
 /-- A polygon wholly inside the box is returned unchanged. -/
 theorem polygon_inside_unchanged (box : Bound α) (p : List (List (Pt α))) (o : Int) (hne : p ≠ [])
@@ -266,6 +295,12 @@ theorem ring_open_witness :
     ring (⟨⟨1, 1⟩, ⟨6, 6⟩⟩ : Bound ℚ) [⟨0, 3⟩, ⟨2, 3⟩, ⟨2, 2⟩, ⟨0, 2⟩] CCW =
       .ok [[[⟨1, 3⟩, ⟨2, 3⟩, ⟨2, 2⟩, ⟨1, 2⟩, ⟨1, 1⟩, ⟨7/2, 1⟩, ⟨6, 1⟩, ⟨6, 7/2⟩, ⟨6, 6⟩, ⟨7/2, 6⟩, ⟨1, 6⟩, ⟨1, 3⟩]]] :=
   ring_open_witness'
+
+/-- an L-shaped ring round the top-right corner of the box lies in no single outer half-plane and yields
+    nothing (the hypothesis of `ring_wholly_outside_nil` is satisfiable beyond `ring_outside_nil`) -/
+theorem ring_L_shape_outside_witness (o : Int) :
+    ring (⟨⟨0, 0⟩, ⟨4, 4⟩⟩ : Bound ℚ) [⟨5, -1⟩, ⟨5, 5⟩, ⟨-1, 5⟩, ⟨-1, 6⟩, ⟨6, 6⟩, ⟨6, -1⟩, ⟨5, -1⟩] o = .ok [] :=
+  (ring_L_shape_witness o).2
 
 example : ∃ out, ring (⟨⟨0, 0⟩, ⟨8, 8⟩⟩ : Bound ℚ)
     [⟨1, 2⟩, ⟨7, 2⟩, ⟨6, 4⟩, ⟨6, 8⟩, ⟨5, 4⟩, ⟨3, 4⟩, ⟨3, 8⟩, ⟨2, 4⟩, ⟨1, 2⟩] CCW = .ok out ∧ out.length = 1 :=
